@@ -98,10 +98,23 @@ Section Sim.
   Lemma set_q_sim na nb q q' : nsim na nb -> Forall2 ent_sim q q' -> nsim (set_q na q) (set_q nb q').
   Proof. intros (Hq & Hc & Ha & Hb & Hl) H. unfold nsim. simpl. repeat split; auto. Qed.
 
-  Lemma sched_play_sim off na nb T T' rid : nsim na nb -> T' == T + t0 -> 0 <= T ->
-    nsim (nrt_sched_play None repaired na T CSystem rid) (nrt_sched_play (Some off) repaired nb T' CSystem rid).
+  Lemma dedup_sim c rid q q' : Forall2 ent_sim q q' -> Forall2 ent_sim (dedup_q c rid q) (dedup_q c rid q').
   Proof.
-    intros H Ht Hn. unfold nrt_sched_play. cbn [b2s]. apply push_sim; auto; lra.
+    induction 1 as [|x y q q' Hx Hq IH]; simpl; [constructor|].
+    pose proof Hx as (_ & _ & C1 & C2 & Rr & _).
+    unfold is_clock. rewrite C1, C2, Rr.
+    destruct (negb (clock_eqb CSystem c && Nat.eqb (e_rid x) rid)); [constructor|]; auto.
+  Qed.
+  Lemma xpush_sim na nb t t' rid bt bt' : nsim na nb -> t' == t + t0 -> 0 <= t ->
+    nsim (xpush true na t CSystem rid bt) (xpush true nb t' CSystem rid bt').
+  Proof.
+    intros H Ht Hn. unfold xpush. apply push_sim; auto.
+    apply set_q_sim; auto. apply dedup_sim. destruct H as (Hq & _). exact Hq.
+  Qed.
+  Lemma sched_play_sim off na nb T T' rid : nsim na nb -> T' == T + t0 -> 0 <= T ->
+    nsim (x_sched_play true None na T CSystem rid) (x_sched_play true (Some off) nb T' CSystem rid).
+  Proof.
+    intros H Ht Hn. unfold x_sched_play. cbn [b2s]. apply xpush_sim; auto; lra.
   Qed.
 
   (* ---- stamping: a send succeeds in one mode iff it does in the other --------------------------- *)
@@ -197,7 +210,7 @@ Section XSim.
   Qed.
 
   Lemma sched_sim a b T T' w : sim t0 a b -> T' == T + t0 -> 0 <= T ->
-    sim t0 (x_sched None a T w) (x_sched (Some off) b T' w).
+    sim t0 (x_sched true None a T w) (x_sched true (Some off) b T' w).
   Proof.
     intros S Ht Hn. pose proof S as S'. unpack_sim S'. unfold x_sched. rewrite H.
     destruct (nth_error (x_routs a) w) as [r|] eqn:E; auto.
@@ -205,7 +218,7 @@ Section XSim.
     apply sim_set_n; auto. apply sched_play_sim; auto.
   Qed.
   Lemma sched_all_sim T T' ws : T' == T + t0 -> 0 <= T -> forall a b, sim t0 a b ->
-    sim t0 (x_sched_all None a T ws) (x_sched_all (Some off) b T' ws).
+    sim t0 (x_sched_all true None a T ws) (x_sched_all true (Some off) b T' ws).
   Proof.
     intros Ht Hn. unfold x_sched_all. induction ws as [|w ws IH]; intros a b S; simpl; auto.
     apply IH. apply sched_sim; auto.
@@ -233,7 +246,7 @@ Section XSim.
   Qed.
 
   Lemma x_play_sim a b rid k T T' bd c : sim t0 a b -> T' == T + t0 -> 0 <= T -> c <> CApp ->
-    psim (x_play None p a rid k T bd c) (x_play (Some off) p b rid k T' bd c).
+    psim (x_play true None p a rid k T bd c) (x_play true (Some off) p b rid k T' bd c).
   Proof.
     intros S Ht Hn Hc. pose proof S as S'. unpack_sim S'. unfold psim, x_play.
     destruct (nth_error (xp_bodies p) bd) as [body|] eqn:Eb; [|split; auto].
@@ -274,7 +287,7 @@ Section XSim.
   Qed.
 
   Lemma x_signal_sim a b T T' c : sim t0 a b -> T' == T + t0 -> 0 <= T ->
-    psim (x_signal None a T c) (x_signal (Some off) b T' c).
+    psim (x_signal true None a T c) (x_signal true (Some off) b T' c).
   Proof.
     intros S Ht Hn. pose proof S as S'. unpack_sim S'. unfold psim, x_signal. rewrite H1.
     destruct (nth_error (x_conds a) c) as [[t ws]|]; [|split; auto].
@@ -288,7 +301,7 @@ Section XSim.
     cbn [fst snd]. split; auto. ssplit.
   Qed.
   Lemma x_flowset_sim a b T T' f v : sim t0 a b -> T' == T + t0 -> 0 <= T ->
-    psim (x_flowset None a T f v) (x_flowset (Some off) b T' f v).
+    psim (x_flowset true None a T f v) (x_flowset true (Some off) b T' f v).
   Proof.
     intros S Ht Hn. pose proof S as S'. unpack_sim S'. unfold psim, x_flowset. rewrite H2.
     destruct (nth_error (x_flows a) f) as [[[x|] ws]|]; try (split; auto; fail).
@@ -308,7 +321,7 @@ Section XSim.
     apply sim_upd; auto. intros r Hr. destruct (xr_st r); exact Hr.
   Qed.
   Lemma x_resume_sim a b rid T T' bd : sim t0 a b -> T' == T + t0 -> 0 <= T ->
-    psim (x_resume None a rid T bd) (x_resume (Some off) b rid T' bd).
+    psim (x_resume true None a rid T bd) (x_resume true (Some off) b rid T' bd).
   Proof.
     intros S Ht Hn. pose proof S as S'. unpack_sim S'. unfold psim, x_resume. rewrite H.
     destruct (latest bd (x_routs a)) as [t|]; [|split; auto].
@@ -323,19 +336,19 @@ Section XSim.
     match oc with XOYield d rest => 0 <= d /\ aok rest | XOHang rest => aok rest | _ => True end.
 
   Lemma xrun_sim : forall acts a b rid k T T', sim t0 a b -> T' == T + t0 -> 0 <= T -> aok acts ->
-    sim t0 (fst (xrun gen None p a rid k T CSystem acts)) (fst (xrun gen (Some off) p b rid k T' CSystem acts)) /\
-    snd (xrun gen None p a rid k T CSystem acts) = snd (xrun gen (Some off) p b rid k T' CSystem acts) /\
-    oc_ok (snd (xrun gen None p a rid k T CSystem acts)).
+    sim t0 (fst (xrun gen true None p a rid k T CSystem acts)) (fst (xrun gen true (Some off) p b rid k T' CSystem acts)) /\
+    snd (xrun gen true None p a rid k T CSystem acts) = snd (xrun gen true (Some off) p b rid k T' CSystem acts) /\
+    oc_ok (snd (xrun gen true None p a rid k T CSystem acts)).
   Proof.
     induction acts as [|x acts IH]; intros a b rid k T T' S Ht Hn Hok.
     - simpl. auto.
     - inversion Hok as [|? ? Hx Hrest]; subst.
       assert (STEP : forall ra rb, psim ra rb ->
-                sim t0 (fst (if snd ra then xrun gen None p (fst ra) rid k T CSystem acts else (fst ra, XORaise)))
-                       (fst (if snd rb then xrun gen (Some off) p (fst rb) rid k T' CSystem acts else (fst rb, XORaise))) /\
-                snd (if snd ra then xrun gen None p (fst ra) rid k T CSystem acts else (fst ra, XORaise)) =
-                snd (if snd rb then xrun gen (Some off) p (fst rb) rid k T' CSystem acts else (fst rb, XORaise)) /\
-                oc_ok (snd (if snd ra then xrun gen None p (fst ra) rid k T CSystem acts else (fst ra, XORaise)))).
+                sim t0 (fst (if snd ra then xrun gen true None p (fst ra) rid k T CSystem acts else (fst ra, XORaise)))
+                       (fst (if snd rb then xrun gen true (Some off) p (fst rb) rid k T' CSystem acts else (fst rb, XORaise))) /\
+                snd (if snd ra then xrun gen true None p (fst ra) rid k T CSystem acts else (fst ra, XORaise)) =
+                snd (if snd rb then xrun gen true (Some off) p (fst rb) rid k T' CSystem acts else (fst rb, XORaise)) /\
+                oc_ok (snd (if snd ra then xrun gen true None p (fst ra) rid k T CSystem acts else (fst ra, XORaise)))).
       { intros ra rb [A B]. rewrite <- B. destruct (snd ra).
         - apply IH; auto.
         - simpl. auto. }
@@ -365,7 +378,7 @@ Section XSim.
 
   (* ---- one wake-up ---------------------------------------------------------------------------------- *)
   Lemma wake_sim a b e e' : sim t0 a b -> ent_sim t0 e e' ->
-    sim t0 (xnrt_wake gen p a e) (xrt_wake gen off p b e').
+    sim t0 (xnrt_wake gen true p a e) (xrt_wake gen off p b e').
   Proof.
     intros Sm (E1 & E2 & E3 & E4 & E5 & E6). pose proof Sm as S'. unpack_sim S'.
     unfold xnrt_wake, xrt_wake. rewrite E3, E4, E5, H.
@@ -382,8 +395,8 @@ Section XSim.
     assert (S1 : sim t0 a1 b1).
     { apply sim_set_n; auto. apply add_log_sim; auto. simpl. auto. }
     destruct (xrun_sim (xr_rest r) a1 b1 (e_rid e) (xr_k r) T T' S1 HT E6 Ra) as (A & B & C).
-    destruct (xrun gen None p a1 (e_rid e) (xr_k r) T CSystem (xr_rest r)) as [a2 oc].
-    destruct (xrun gen (Some off) p b1 (e_rid e) (xr_k r) T' CSystem (xr_rest r)) as [b2 oc'].
+    destruct (xrun gen true None p a1 (e_rid e) (xr_k r) T CSystem (xr_rest r)) as [a2 oc].
+    destruct (xrun gen true (Some off) p b1 (e_rid e) (xr_k r) T' CSystem (xr_rest r)) as [b2 oc'].
     cbn [fst snd] in A, B, C. subst oc'. unfold x_after.
     destruct oc as [d rest|rest| |]; simpl in C.
     - destruct C as [Cd Cr].
@@ -392,7 +405,7 @@ Section XSim.
       { apply sim_upd; auto. intros r0 [X Y]. simpl. auto. }
       pose proof U as U'. unpack_sim U'.
       apply sim_set_n; auto.
-      apply push_sim; auto.
+      apply xpush_sim; auto.
       + rewrite Qred_correct. unfold T. lra.
       + rewrite Qred_correct. unfold T. lra.
     - apply sim_upd; auto. intros r0 [X Y]. simpl. auto.
@@ -425,7 +438,7 @@ Section XSim.
 
   Lemma step_sim a s ch : sim t0 a (xs s) -> xs_bad (xrt_step gen off p s ch) = false ->
     exists e rest, n_q (x_n a) = e :: rest /\
-      sim t0 (xnrt_wake gen p (set_n a (set_q (x_n a) rest)) e) (xs (xrt_step gen off p s ch)).
+      sim t0 (xnrt_wake gen true p (set_n a (set_q (x_n a) rest)) e) (xs (xrt_step gen off p s ch)).
   Proof.
     intros Sm Hs. destruct ch as [rid t]. unfold xrt_step in *.
     pose proof Sm as S'. unpack_sim S'. destruct N as (Hq & Hc & Ha & Hbb & Hl).
@@ -449,7 +462,7 @@ Section XSim.
 
   Lemma run_sim : forall sched a s, sim t0 a (xs s) ->
     xs_bad (fold_left (xrt_step gen off p) sched s) = false ->
-    sim t0 (xnrt_loop gen p (length sched) a) (xs (fold_left (xrt_step gen off p) sched s)).
+    sim t0 (xnrt_loop gen true p (length sched) a) (xs (fold_left (xrt_step gen off p) sched s)).
   Proof.
     induction sched as [|ch l IH]; intros a s Sm Hb; simpl; auto.
     simpl in Hb.
@@ -513,16 +526,16 @@ Proof.
 Qed.
 
 (* the non-real-time run stops when the queue is empty: more fuel changes nothing *)
-Lemma nrt_loop_done gen p : forall n st, n_q (x_n st) = [] -> xnrt_loop gen p n st = st.
+Lemma nrt_loop_done gen p : forall n st, n_q (x_n st) = [] -> xnrt_loop gen true p n st = st.
 Proof. intros [|n] st H; simpl; auto. rewrite H. reflexivity. Qed.
-Lemma nrt_loop_plus gen p : forall n m st, xnrt_loop gen p (n + m) st = xnrt_loop gen p m (xnrt_loop gen p n st).
+Lemma nrt_loop_plus gen p : forall n m st, xnrt_loop gen true p (n + m) st = xnrt_loop gen true p m (xnrt_loop gen true p n st).
 Proof.
   induction n as [|n IH]; intros m st; simpl; auto.
   destruct (n_q (x_n st)) as [|e rest] eqn:E; auto.
   destruct m; simpl; auto. rewrite E. reflexivity.
 Qed.
-Lemma nrt_loop_stable gen p n m st : n_q (x_n (xnrt_loop gen p n st)) = [] -> (n <= m)%nat ->
-  xnrt_loop gen p m st = xnrt_loop gen p n st.
+Lemma nrt_loop_stable gen p n m st : n_q (x_n (xnrt_loop gen true p n st)) = [] -> (n <= m)%nat ->
+  xnrt_loop gen true p m st = xnrt_loop gen true p n st.
 Proof.
   intros H L. replace m with (n + (m - n))%nat by lia. rewrite nrt_loop_plus. apply nrt_loop_done. exact H.
 Qed.
@@ -542,9 +555,9 @@ Lemma rt_oracle_independent gen off1 off2 p t1 t2 s1 s2 : sys_only p ->
 Proof.
   intros Hp H1 H2 O1 O2 B1 B2 Q1 Q2.
   rewrite (rt_nrt_agree_sys gen off1 p t1 s1), (rt_nrt_agree_sys gen off2 p t2 s2); auto.
-  assert (S1 : sim t1 (xnrt_loop gen p (length s1) (xnrt_init p)) (xs (xrt_run gen off1 p t1 s1))).
+  assert (S1 : sim t1 (xnrt_loop gen true p (length s1) (xnrt_init p)) (xs (xrt_run gen off1 p t1 s1))).
   { unfold xrt_run in *. apply run_sim; auto. apply init_sim; auto. }
-  assert (S2 : sim t2 (xnrt_loop gen p (length s2) (xnrt_init p)) (xs (xrt_run gen off2 p t2 s2))).
+  assert (S2 : sim t2 (xnrt_loop gen true p (length s2) (xnrt_init p)) (xs (xrt_run gen off2 p t2 s2))).
   { unfold xrt_run in *. apply run_sim; auto. apply init_sim; auto. }
   pose proof (sim_q_empty _ _ _ S1 Q1) as E1. pose proof (sim_q_empty _ _ _ S2 Q2) as E2.
   unfold obs_nrt. destruct (Nat.le_ge_cases (length s1) (length s2)) as [L|L].
